@@ -16,8 +16,33 @@ every operation, for every tracked object:
  (3) state, event sequence, outcome class (ok / SQLAlchemy error), result
      objects and transaction depth equal the model's prediction.
 
-Mutations caught: see the end of this docstring (filled in after the
-detection runs).
+Findings on the unchanged tree (each judged against doc/build/orm/session_events.rst,
+session_state_management.rst and the SessionEvents docstrings; signatures are
+root-cause keyed, see ``check_step``): deleted objects stay "deleted" after
+commit with expire_on_commit=False and after close(); deleted_to_persistent
+fires on rollback for an object that was only *marked* for deletion; objects
+that left the session (expunge / make_transient) but are still in the
+transaction's snapshot collections get events / state changes / make
+rollback() raise; a stale ``_deleted`` flag survives the rollback of
+INSERT+DELETE and makes the next INSERT report the "deleted" state.
+
+Mutations caught (each in a private copy, `VF_REPO=/tmp/wt-orm1 ./check C35`):
+ * session.py `_register_persistent`: pending_to_persistent dispatched for
+   `states.difference(self._new)` (wrong branch) -> "state changed pending ->
+   persistent without an event"
+ * state.py `_detach_states`: `if to_transient` / `else` swapped
+   (persistent_to_transient <-> persistent_to_detached) -> event/path mismatch
+ * session.py `_remove_snapshot`: `parent._new.update(self._new)` dropped
+   (savepoint release forgets INSERTs) -> "rollback: object
+   persistent+inserted-in-open-tx -> persistent, documented: transient"
+ * session.py `_update_impl`: deleted_to_persistent dispatch dropped on
+   revert_deletion -> "state changed deleted -> persistent without an event"
+ * state.py `InstanceState.persistent` computed without `not self._deleted`
+   -> "not exactly one lifecycle state: 'persistent+deleted'"
+ * session.py `expunge_all`: pending states left out of `all_states` ->
+   "close: state pending but (obj in Session.new) is False"
+ * session.py `_after_attach`: detached_to_persistent / transient_to_pending
+   swapped -> "add: event detached_to_persistent fired while the object was transient"
 """
 from __future__ import annotations
 
@@ -387,7 +412,7 @@ def shards(tier, seed):
     return [None]
 
 
-SHARD_TIMEOUT = dict(quick=1500, thorough=7200)
+SHARD_TIMEOUT = dict(quick=3600, thorough=6 * 3600)
 WARM = [
     ("add", "x", None), ("flush",), ("set", "x", "name", "w"), ("flush",), ("query", "Plain"), ("begin_nested",),
     ("merge", "Plain", (("id", 1), ("name", "m"))), ("sp_commit",), ("commit",), ("set", "x", "name", "v"),
